@@ -42,9 +42,6 @@ Definition GY2 xs ys := sum2 (fun x y => y * g2 x) xs ys.
 Lemma iter_enum (O : FloatOps R) (l : list (val R)) : py_iter (py_enumerate (VList l)) = VList (enum_from 0 l).
 Proof. unfold py_enumerate. cbn [py_iter]. rewrite bind_ok by reflexivity. reflexivity. Qed.
 
-Lemma sum2_cons g a xs b ys : sum2 g (a :: xs) (b :: ys) = g a b + sum2 g xs ys.
-Proof. reflexivity. Qed.
-
 (* determinants and closed forms exactly as the code writes them (2.0 is the literal 20e-1) *)
 Definition gen_det (m p q r s t : R) := m * r * t + Rlit 20 (-1) * p * q * s - m * s * s - r * q * q - t * p * p.
 Definition gen_det2 (m p r : R) := m * r - p * p.
